@@ -24,7 +24,7 @@ fn spec(t: Tier) -> Spec {
     Spec {
         id: "C11",
         level: "exploration",
-        rule: format!("(1) every token sequence of length <= {} over the 16-token alphabet (and over a variant with -delete) that the reference grammar REJECTS must be rejected by find_main: non-zero status, a diagnostic, empty stdout, tree untouched; (2) for each operand-taking primary every string of <= k symbols over a per-primary alphabet is given as operand; where the reference validity predicate says 'definitely invalid' the vector must be rejected the same way; (3) every vector of (1),(2), every primary with its operand missing, every primary evaluated on an entry already removed by -delete, and -ls/-printf on entries owned by ids without passwd/group entries run under catch_unwind and must not panic; binary slice: vectors <= 3 tokens and a non-UTF-8 argument through the hooks-off binary (exit 101/134/signal = panic/abort; 10 s = hang). unwritable-output slice through the binary: -print, -print0, -printf (with and without a newline, with \\c), -ls with standard output = /dev/full / a pipe whose reader has gone, and -fprint, -fprint0, -fprintf writing to /dev/full — no panic, a non-zero ordinary status (or SIGPIPE), ENOSPC diagnosed; scale vectors through the binary: N nested (negated) parentheses, right-nested -o / comma groups, N '!' in a row, chains of N terms, N starting points, operands of N bytes for -name/-regex/-printf/-path, N in 100, 1000, 3000, 10^4, 3x10^4, 10^5 — must end with an ordinary exit status (0, or non-zero with a diagnostic); non-trivial = vector the reference classifies as invalid", glen(t)),
+        rule: format!("(1) every token sequence of length <= {} over the 16-token alphabet (and over a variant with -delete) that the reference grammar REJECTS must be rejected by find_main: non-zero status, a diagnostic, empty stdout, tree untouched; (2) for each operand-taking primary every string of <= k symbols over a per-primary alphabet is given as operand; where the reference validity predicate says 'definitely invalid' the vector must be rejected the same way; (3) every vector of (1),(2), every primary with its operand missing, every primary evaluated on an entry already removed by -delete, and -ls/-printf on entries owned by ids without passwd/group entries run under catch_unwind and must not panic; binary slice: vectors <= 3 tokens and a non-UTF-8 argument through the hooks-off binary (exit 101/134/signal = panic/abort; 10 s = hang). unwritable-output slice through the binary: -print, -print0, -printf (with and without a newline, with \\c), -ls with standard output = /dev/full / a pipe whose reader has gone, and -fprint, -fprint0, -fprintf writing to /dev/full — no panic, a non-zero ordinary status (or SIGPIPE), ENOSPC diagnosed; unwritable-standard-error slice: twelve commands that produce diagnostics (missing starting point, commands that cannot be started, a failing -delete, parse errors, per-file errors) with 2>/dev/full — no panic, the usual exit status; scale vectors through the binary: N nested (negated) parentheses, right-nested -o / comma groups, N '!' in a row, chains of N terms, N starting points, operands of N bytes for -name/-regex/-printf/-path, N in 100, 1000, 3000, 10^4, 3x10^4, 10^5 — must end with an ordinary exit status (0, or non-zero with a diagnostic); non-trivial = vector the reference classifies as invalid", glen(t)),
         bound: json!({"grammar_len": glen(t), "operand_sweeps": sweeps(t).iter().map(|s| json!({"primary": s.primary, "alphabet": s.alphabet, "maxlen": s.maxlen})).collect::<Vec<_>>()}),
         assumptions: vec![
             "operands whose validity is debatable (valid in GNU but unsupported here, GNU-specific leniency) are executed for no-panic only".into(),
@@ -788,6 +788,65 @@ fn run(ctx: &mut Ctx) {
     binary_slice(ctx, &mut global);
     scale_vectors(ctx, &mut global);
     unwritable_output(ctx, &mut global);
+    unwritable_stderr(ctx, &mut global);
+}
+
+/// Diagnostics that cannot be written (standard error is /dev/full) must not turn into a panic;
+/// the exit status is what it would be otherwise.
+fn unwritable_stderr(ctx: &mut Ctx, global: &mut u64) {
+    use std::os::unix::process::ExitStatusExt;
+    use std::process::{Command, Stdio};
+    let sbx = ctx.sbx.clone();
+    crate::sandbox::clear_dir(&sbx);
+    if let Err(e) = crate::sandbox::materialize(&odd_fs(), 0, &sbx) {
+        ctx.rep.machinery(format!("odd tree builder: {e}"));
+        return;
+    }
+    let exe = crate::engine::repo_bin_dir().join("find");
+    // (arguments, expected exit status if it is determined)
+    let cases: [(&[&str], Option<i32>); 12] = [
+        (&["missing-root"], Some(1)),
+        (&["missing-root", "t", "-maxdepth", "0"], Some(1)),
+        (&["t", "-exec", "/nonexistent/cmd", "{}", ";"], Some(0)),
+        (&["t", "-execdir", "/nonexistent/cmd", "{}", ";"], Some(0)),
+        (&["t", "-exec", "/nonexistent/cmd", "{}", "+"], Some(1)),
+        (&["t/sub", "-maxdepth", "0", "-delete"], Some(1)),
+        (&["t", "-name", "a", "-o"], Some(1)),
+        (&["t", "-newer", "missing-ref"], Some(1)),
+        (&["t", "-printf", "%"], Some(1)),
+        (&["-L", "t", "-name", "loop"], None),
+        (&["t", "-empty", "-samefile", "out/f", "-o", "-size", "+0", "-perm", "-0", "-lname", "*", "-mtime", "0", "-newer", "out/f"], Some(0)),
+        (&["t", "-regextype", "nosuch"], Some(1)),
+    ];
+    for (args, want) in cases {
+        *global += 1;
+        if !ctx.mine(*global) {
+            continue;
+        }
+        let err = match std::fs::OpenOptions::new().write(true).open("/dev/full") {
+            Ok(f) => Stdio::from(f),
+            Err(e) => {
+                ctx.rep.machinery(format!("open /dev/full: {e}"));
+                return;
+            }
+        };
+        let Ok(o) = Command::new(&exe).args(args).current_dir(&sbx).env_clear().stdin(Stdio::null()).stdout(Stdio::null()).stderr(err).output() else {
+            ctx.rep.machinery("spawn find".into());
+            continue;
+        };
+        ctx.rep.evaluations += 1;
+        ctx.rep.nontrivial += 1;
+        ctx.rep.count("unwritable_stderr_runs", 1);
+        let (code, sig) = (o.status.code(), o.status.signal());
+        let died = matches!(code, Some(101) | Some(134)) || sig.is_some();
+        if died || want.is_some_and(|w| code != Some(w)) {
+            ctx.rep.violation(
+                &format!("C11 find {} when its diagnostics cannot be written (standard error is /dev/full)", if died { "panicked / aborted" } else { "changed its exit status" }),
+                format!("find {:?} 2>/dev/full: code {:?} signal {:?} (expected {:?})", args, code, sig, want),
+                json!({"prop":"C11","argv":args,"stderr_full":true,"binary":true}),
+            );
+        }
+    }
 }
 
 /// The output actions when their destination cannot be written: standard output is /dev/full
